@@ -163,3 +163,48 @@ Proof.
   exists 29456, (1 # 20), 0, (14045 # 100). unfold meat_births_baseline. repeat split; try discriminate; reflexivity.
 Qed.
 Print Assumptions c06_births_baseline_negative_refuted.
+
+(* ================= list level: the assembled month_step, and every reachable month =================
+   herd_ok x := static_ok (fst x) /\ state_ok (snd x).  herd_conclusions m l x r (Proofs/Herd.v) says, for the herd x
+   of the list l and the record r that month_step returns for it: r's births / retirements are phase_a of x; the single-
+   clamp ledger of c06_ledger holds between x's head count and r's flows and end count; transfer_population and the
+   additive animals are the (signed) transfer of x's species computed from the whole list (c06_transfer identifies it with
+   the dairy herd's retirements + surviving male calves); slaughter is >= 0, <= the animals available and respects the
+   target; births, retirements, natural and starvation deaths are >= 0 and the three homekill terms are 0; and the state
+   handed to the next month is state_ok. *)
+Theorem c06_month_step : forall month l feed grass, Forall herd_ok l ->
+  let m := inject_Z (Z.of_nat month) in
+  let rs := fst (fst (month_step month l feed grass)) in
+  Forall2 (herd_conclusions m l) l rs /\
+  (forall z, hours_used z (als_of m l) (map m_b rs) <= hours_of_size z (map fst l)) /\
+  Forall herd_ok (step_states month l feed grass) /\
+  map fst (step_states month l feed grass) = map fst l.
+Proof.
+  intros month l feed grass H. cbn zeta. split; [apply month_step_conclusions; exact H|].
+  split; [apply month_step_hours; exact H|]. split; [apply step_states_ok; exact H|apply step_states_statics; exact H].
+Qed.
+Print Assumptions c06_month_step.
+
+(* --- induction over months: every state reachable by iterating month_step from a state_ok list (any number of months,
+       any starting month, any monthly feed and grass series) is state_ok with the same herds, so c06_month_step applies to
+       the month that follows it *)
+Theorem c06_reachable : forall n month feed grass l, Forall herd_ok l ->
+  let l' := iterate_months n month feed grass l in
+  Forall herd_ok l' /\ map fst l' = map fst l /\
+  forall f g, Forall2 (herd_conclusions (inject_Z (Z.of_nat (month + n))) l') l'
+                      (fst (fst (month_step (month + n) l' f g))).
+Proof.
+  intros n month feed grass l H. cbn zeta.
+  pose proof (iterate_months_ok n month feed grass l H) as H'.
+  split; [exact H'|]. split; [apply iterate_months_statics; exact H|].
+  intros f g. apply month_step_conclusions. exact H'.
+Qed.
+Print Assumptions c06_reachable.
+
+(* --- the initial state built by set_species_slaughter_attributes / append_month_zero is state_ok when the baseline
+       births (and the initial slaughter) are non-negative - the hypothesis refuted for six (country, herd) pairs above *)
+Theorem c06_init_state_ok : forall pop sl births_baseline ratio perpreg gest pfrac,
+  0 <= pop -> 0 <= sl -> 0 <= births_baseline -> 0 < ratio -> 0 < perpreg -> 0 < gest ->
+  state_ok (init_state pop sl births_baseline ratio perpreg gest pfrac).
+Proof. exact init_state_ok_lemma. Qed.
+Print Assumptions c06_init_state_ok.
